@@ -159,6 +159,8 @@ type Factory struct {
 	Pre        []*btcutil.Block // real blocks between the real genesis and abstract block 0 (catalogue mode: they provide mature coins)
 	BaseHeight int32
 	Opts       NetOpts  // the options the parameters were made from (a node makes its own fresh copy with NodeParams)
+	MaxSpends  int      // at most this many random spends per block (0: no limit)
+	NoSpecial  bool     // the preamble creates no special coin kinds (small blocks for the pruned workloads)
 	ForceRule  []string // per block: when set, the catalogue entry to use instead of a random draw ("edge:<name>" for a valid block)
 }
 
@@ -283,10 +285,12 @@ func (f *Factory) Preamble(k int) {
 					tx.AddTxOut(&wire.TxOut{Value: q, PkScript: opTrue})
 					tx.AddTxOut(&wire.TxOut{Value: q, PkScript: []byte{txscript.OP_0}})
 					// one output of every special kind (special.go)
-					for _, k := range specialOrder {
-						tx.AddTxOut(&wire.TxOut{Value: q, PkScript: specialScripts[k]})
+					if !f.NoSpecial {
+						for _, k := range specialOrder {
+							tx.AddTxOut(&wire.TxOut{Value: q, PkScript: specialScripts[k]})
+						}
 					}
-					tx.AddTxOut(&wire.TxOut{Value: c.Amount - int64(4+len(specialOrder))*q, PkScript: opTrue})
+					tx.AddTxOut(&wire.TxOut{Value: c.Amount - int64(len(tx.TxOut))*q, PkScript: opTrue})
 					txs = append(txs, tx)
 					delete(set, op)
 					h := tx.TxHash()
@@ -441,6 +445,9 @@ func (f *Factory) build(b int) {
 	for ci, cd := range bb.avail {
 		if _, unspent := bb.mine[cd.op]; !unspent || f.rng.Float64() >= f.SpendP || !usable(cd.c) {
 			continue
+		}
+		if f.MaxSpends > 0 && len(bb.txs) > f.MaxSpends {
+			break
 		}
 		tx := wire.NewMsgTx(1)
 		tx.LockTime = uint32(b*1000 + len(bb.txs)) // unique txids: no accidental BIP30 collisions
